@@ -214,7 +214,11 @@ def gen_style(rng):
 
 
 def _ack_ops(rng, t, ns, i):
-    args = [G.gen_value(rng, 1, 0.2) for _ in range(rng.randint(0, 3))]
+    if rng.random() < 0.3:
+        # exactly one falsy-but-meaningful value: call() must return it, not None
+        args = [rng.choice([0, 0.0, False, '', [], {}])]
+    else:
+        args = [G.gen_value(rng, 1, 0.2) for _ in range(rng.randint(0, 3))]
     return [{'op': 'frame', 't': t, 'text': f} if isinstance(f, str) else {'op': 'frameval', 't': t, 'v': f}
             for f in pycodec.encode(3, ns, i, args)]
 
